@@ -6,7 +6,8 @@ Driver handlers for property C10.
 * `c10.refusal` — configured targets (registry order) and the refusal of an incompletely configured `generate` section
 * `c10.run`  — one API object driven along a history of parse / generate / report calls: per call the files written
                (path, content identity) and whether they equal what a fresh process writes for the same
-               (configuration, program, target)
+               (configuration, program, target). A program may be marked `accepted: false` (the front end refuses it:
+               the parse is `rejected` and yields no result; `gc` counts the *accepted* parses)
 -/
 namespace Pydjinni.Drv.C10
 open Lean Pydjinni.GenC Pydjinni.SysC Pydjinni.Drv.SysJson
@@ -26,7 +27,8 @@ def decodeProg (j : Json) : Except String Prog := do
   let reads ← getStrs j "reads"
   let exts ← getStrs j "exts"
   let defs ← decodeDecls j "defs"
-  pure { id, reads := reads.map Path.ofString, exts := exts.map Path.ofString, defs }
+  let accepted := (j.getObjValAs? Bool "accepted").toOption.getD true
+  pure { id, reads := reads.map Path.ofString, exts := exts.map Path.ofString, defs, accepted }
 
 def decodeCall (j : Json) : Except String Call := do
   let op ← j.getObjValAs? String "op"
@@ -51,6 +53,7 @@ def filesJ' (fs : List (Path × ContentId)) : Json :=
 
 def outcomeJ : Outcome → List (String × Json)
   | .parsed => [("kind", "parsed")]
+  | .rejected => [("kind", "rejected")]
   | .wrote fs => [("kind", "wrote"), ("files", filesJ' fs)]
   | .missingConfig fs => [("kind", "missingConfig"), ("files", filesJ' fs)]
   | .crash fs => [("kind", "crash"), ("files", filesJ' fs)]
